@@ -12,7 +12,7 @@
 (*   RelEP       deferred releaseEndpoint (hand the slot to the head        *)
 (*               waiter, else counter--, delete the queue at 0)             *)
 (* and the environment: Cancel(r) (context cancelled), Finish(r) (the       *)
-(* wrapped do function returns).                                            *)
+(* wrapped do function returns), FinCan(r, c) (both at the same instant).   *)
 (* The state is one record so that the same definitions serve TLC's         *)
 (* exhaustive search, behaviour generation and trace validation.            *)
 (***************************************************************************)
@@ -56,6 +56,10 @@ Arrive(s, r) ==
         ELSE [s EXCEPT !.ep[p].q = Append(e.q, r), !.pc[r] = "waitEP", !.arr = Append(s.arr, r)]}
 Cancel(s, r) == IF s.pc[r] \in {"idle", "done"} \/ s.can[r] THEN {} ELSE {[s EXCEPT !.can[r] = TRUE]}
 Finish(s, r) == IF s.pc[r] = "inDo" THEN {[s EXCEPT !.pc[r] = "relSem", !.ok[r] = TRUE]} ELSE {}
+\* the wrapped do function of r returns at the very instant the context of c, which waits for the same endpoint, is
+\* cancelled: the library's steps that follow see both at once (c's select finds its channel closed AND its context done)
+FinCan(s, r, c) == IF r # c /\ s.pc[r] = "inDo" /\ s.pc[c] = "waitEP" /\ ~s.can[c] /\ PathOf[r] = PathOf[c]
+                   THEN {[s EXCEPT !.pc[r] = "relSem", !.ok[r] = TRUE, !.can[c] = TRUE]} ELSE {}
 
 (* -------------------------------- internal ------------------------------- *)
 WakeAdm(s, r) == IF s.pc[r] = "waitEP" /\ s.adm[r] THEN {[s EXCEPT !.pc[r] = "haveEP"]} ELSE {}
@@ -77,7 +81,9 @@ RelEP(s, r)  == IF s.pc[r] = "relEP" THEN {[ReleaseEP(s, PathOf[r]) EXCEPT !.pc[
 
 IntSucc(s) == UNION {WakeAdm(s, r) \cup WakeCan(s, r) \cup TrySem(s, r) \cup CanSem(s, r) \cup RelSem(s, r) \cup RelEP(s, r) : r \in Reqs}
 EnvApply(s, a) == CASE a.a = "arrive" -> Arrive(s, a.r) [] a.a = "cancel" -> Cancel(s, a.r) [] a.a = "finish" -> Finish(s, a.r)
-EnvActs == {[a |-> x, r |-> r] : x \in {"arrive", "cancel", "finish"}, r \in Reqs}
+                     [] a.a = "fincan" -> FinCan(s, a.r, a.c)
+EnvActs == {[a |-> x, r |-> r, c |-> 0] : x \in {"arrive", "cancel", "finish"}, r \in Reqs}
+           \cup {[a |-> "fincan", r |-> r, c |-> c] : r \in Reqs, c \in Reqs}
 EnvSucc(s) == UNION {EnvApply(s, a) : a \in EnvActs}
 \* all states in which the library has nothing left to do on its own
 RECURSIVE Quiesce(_)
